@@ -39,7 +39,7 @@ def _load_progs(spec):
 
 def worker_unit(args):
     """explore one unit of work: (module, job, prefixes, cap) -> plain-data result"""
-    modname, job, prefixes, cap, budget_s, timeout_ms = args
+    modname, job, prefixes, cap, budget_s, timeout_ms, mode = args
     t0 = time.time()
     res = {'job': job.get('name'), 'violations': [], 'leftover': [], 'inconclusive': [], 'error': None}
     try:
@@ -56,6 +56,11 @@ def worker_unit(args):
         e.timeout_ms = timeout_ms
         harness, describe = mod.make(e, progs, job)
         e.pending = [list(p) for p in prefixes]
+        e.fork_mode = (mode == 'fork')
+        e.is_child = False
+        e.deadline = t0 + budget_s
+        if mode == 'fork':
+            cap = 1 << 60
         n = 0
         samples = []
         while e.pending:
@@ -74,6 +79,7 @@ def worker_unit(args):
         e.pending = []
         for v in e.violations:
             res['violations'].append({'kind': v.kind, 'msg': v.msg, 'where': v.where, 'data': v.data, 'job': job.get('name')})
+        e.fork_mode = False
         st = e.stats
         res['stats'] = {k: getattr(st, k) for k in ('paths', 'steps', 'feas_checks', 'assert_checks', 'assert_violated', 'solver_s', 'infeasible', 'assert_structural')}
         res['stubs'] = st.stubs; res['fns'] = st.fns; res['reached'] = st.reached
@@ -172,8 +178,13 @@ def main():
     pending = []
     deadline = t_start + budget_total
 
-    def submit(job, prefixes):
-        return pool.apply_async(worker_unit, ((modname, job, prefixes, cap, max(5.0, deadline - time.time()), timeout_ms),))
+    use_fork = os.environ.get('VERIF_FORK', '0') != '0'   # fork-based DFS measured slower here (fork of a large process ~20 ms)
+    split_cap = getattr(mod, 'SPLIT_CAP', 12)
+
+    def submit(job, prefixes, mode='split'):
+        if not use_fork:
+            mode = 'replay'
+        return pool.apply_async(worker_unit, ((modname, job, prefixes, split_cap if mode == 'split' else cap, max(5.0, deadline - time.time()), timeout_ms, mode),))
 
     for j in jobs:
         pending.append(submit(j, [[]]))
@@ -210,8 +221,13 @@ def main():
                 if time.time() > deadline:
                     unfinished += len(left)
                 else:
-                    for ch in chunk(left, max(1, min(len(left), NPROC))):
-                        nxt.append(submit(jobmap[res['job']], ch))
+                    if use_fork:
+                        # full exploration of each pending subtree by fork-based DFS (no re-execution of prefixes)
+                        for ch in chunk(left, max(1, min(len(left), 4 * NPROC))):
+                            nxt.append(submit(jobmap[res['job']], ch, 'fork'))
+                    else:
+                        for ch in chunk(left, max(1, min(len(left), NPROC))):
+                            nxt.append(submit(jobmap[res['job']], ch))
         pending = nxt
         if not progressed:
             time.sleep(0.02)
